@@ -7,8 +7,10 @@ checks = sys.argv[3:] or sorted(os.path.basename(p)[:-3].upper() for p in glob.g
 subprocess.check_call(['git', 'checkout', '-q', '--', 'src'], cwd=wt)
 subprocess.check_call(['git', 'apply', patch], cwd=wt)
 res = {}
+import shutil
+shutil.rmtree(os.path.join(wt, 'target', 'verif-out'), ignore_errors=True)
 try:
-    env = dict(os.environ, L2TP_REPO=wt)
+    env = dict(os.environ, L2TP_REPO=wt, VERIF_OUT=os.path.join(wt, 'target', 'verif-out'), VERIF_SELFTEST_CHILD='1')
     procs = {c: subprocess.Popen(['./check', c], cwd='/verif', env=env, stdout=subprocess.PIPE, stderr=subprocess.STDOUT, text=True) for c in checks}
     for c, p in procs.items():
         out, _ = p.communicate()
